@@ -237,9 +237,20 @@ func c06(c *Ctx) {
 			return r != nil && orig != nil && sameVar(info, r, orig)
 		}))
 		// every assignment of the read pointer that is not the restore
+		// … directly, or by calling a helper of the package that assigns it (a shared copy-and-advance routine)
 		advance := toSet(g.Match(func(n ast.Node) bool {
 			r := assignRHS(n, func(e ast.Expr) bool { return isField(info, e, fRead) })
-			return r != nil && !(orig != nil && sameVar(info, r, orig))
+			if r != nil && !(orig != nil && sameVar(info, r, orig)) {
+				return true
+			}
+			if call, ok := n.(*ast.CallExpr); ok {
+				if h := ix.declByObj(callee(info, call)); h != nil && h != fn {
+					return ix.hasEffect(h, func(m ast.Node) bool {
+						return assignRHS(m, func(e ast.Expr) bool { return isField(info, e, fRead) }) != nil
+					}, 0)
+				}
+			}
+			return false
 		}))
 		// the saved value is the entry value: its definition is not reachable from an advance
 		if orig != nil {
